@@ -25,6 +25,9 @@ def main(tier, replay, t0):
         spec = c.spec
         for x in c.cfgs:
             if c.gen[x["id"]].get("result") != "ok":
+                v = probes.refusal_violation(c, x, "entry point constant or helper")
+                if v and spec.entries:
+                    viol.append(v)
                 continue
             base = {"case_id": c.id, "wgsl": c.wgsl, "options": x["opt"]}
             if not camp.module_ok(c.id, x["id"]):
